@@ -85,13 +85,13 @@ func eps() []entryPoint {
 var epTable = eps()
 
 type gateObs struct {
-	Ep  string `json:"ep"`
-	R   int    `json:"r"`
-	Out bool   `json:"out"`
+	R   int      `json:"r"`
+	Yes []string `json:"yes"` // entry points through which a record of severity R was emitted
+	No  []string `json:"no"`  // entry points through which nothing was emitted
 }
 
 func emitted(f func()) (out bool, panicked any) {
-	sink.reset()
+	takeAll()
 	defer func() {
 		if p := recover(); p != nil {
 			panicked = p
@@ -107,10 +107,28 @@ func emitted(f func()) (out bool, panicked any) {
 }
 
 // gateTable issues a record through every entry point at every severity the entry point can
-// carry and reports whether anything reached a writer, plus the Enabled/EnabledContext answers.
-func (r *coreRun) gateTable(id int, l *slog.Entry) []gateObs {
-	var res []gateObs
-	isDefault := slog.Default().Root() == l
+// carry and reports, per severity, through which entry points something reached a writer
+// (Enabled/EnabledContext count as entry points whose "output" is their answer).
+func (r *coreRun) gateTable(id int, l *slog.Entry, o map[string]any) {
+	isDefault := defaultEntry() == l
+	bySev := map[int]*gateObs{}
+	get := func(sev int) *gateObs {
+		g := bySev[sev]
+		if g == nil {
+			g = &gateObs{R: sev, Yes: []string{}, No: []string{}}
+			bySev[sev] = g
+		}
+		return g
+	}
+	add := func(sev int, ep string, out bool) {
+		g := get(sev)
+		if out {
+			g.Yes = append(g.Yes, ep)
+		} else {
+			g.No = append(g.No, ep)
+		}
+	}
+	verbose := false
 	for _, ep := range epTable {
 		if ep.pkg && !isDefault {
 			continue
@@ -118,20 +136,20 @@ func (r *coreRun) gateTable(id int, l *slog.Entry) []gateObs {
 		switch {
 		case ep.fixed >= 0:
 			out, _ := emitted(func() { ep.call(l, slog.Level(ep.fixed), "gate probe") })
-			res = append(res, gateObs{ep.name, ep.fixed, out})
+			add(ep.fixed, ep.name, out)
 		case ep.fixed == -2:
 			out, _ := emitted(func() { ep.call(l, 0, "gate probe") })
-			res = append(res, gateObs{"Verbose", 0, out})
+			verbose = verbose || out
 		default:
 			for _, sev := range r.sc.GateSevs {
 				out, _ := emitted(func() { ep.call(l, slog.Level(sev), "gate probe") })
-				res = append(res, gateObs{ep.name, sev, out})
+				add(sev, ep.name, out)
 			}
 		}
 	}
 	for _, sev := range r.sc.GateSevs {
-		res = append(res, gateObs{"Enabled", sev, l.Enabled(slog.Level(sev))})
-		res = append(res, gateObs{"EnabledContext", sev, l.EnabledContext(bg, slog.Level(sev))})
+		add(sev, "Enabled", l.Enabled(slog.Level(sev)))
+		add(sev, "EnabledContext", l.EnabledContext(bg, slog.Level(sev)))
 	}
 	// Entry.Log takes a log/slog level; the four standard levels map to their namesakes.
 	for _, p := range []struct {
@@ -139,7 +157,23 @@ func (r *coreRun) gateTable(id int, l *slog.Entry) []gateObs {
 		r  int
 	}{{logslog.LevelDebug, 5}, {logslog.LevelInfo, 4}, {logslog.LevelWarn, 3}, {logslog.LevelError, 2}} {
 		out, _ := emitted(func() { l.Log(bg, p.sl, "gate probe") })
-		res = append(res, gateObs{"Log", p.r, out})
+		add(p.r, "Log", out)
 	}
-	return res
+	var res []*gateObs
+	for _, sev := range r.sc.GateSevs {
+		if g := bySev[sev]; g != nil {
+			res = append(res, g)
+		}
+	}
+	o["gate"] = res
+	o["verbose"] = verbose
+}
+
+// defaultEntry returns the *Entry behind the package default logger: the logger itself when
+// SetDefault was given an *Entry, else the detached logger made by slog.New (its own root).
+func defaultEntry() *slog.Entry {
+	if e, ok := slog.Default().(*slog.Entry); ok {
+		return e
+	}
+	return slog.Default().Root()
 }
